@@ -293,3 +293,54 @@ def no_reused_iterators(ctx, rep, R, rel, what, min_functions=3):
     rep.ob(R, rel, "no one-shot iterator is iterated in a loop it was created outside of, in " + what, not hits,
            "%s — a generator yields its elements once: from the second iteration of the enclosing loop on it is empty, and what was found for the "
            "first request is `not there` for every later one" % "; ".join(hits[:4]))
+
+
+def row_counts_used_as_widths(root):
+    """[(lineno, text)]: `<x>.size1()` / `<x>.rows()` / `<x>.shape[0]` that feeds a sum, an addition, a slice bound or the size of a new
+    symbol without being multiplied by the matching column count — the number of scalar elements of a CasADi matrix is numel() (= size1 *
+    size2); rows alone are right for column vectors only, and a `Real M[2,3]` gets 2 slots instead of 6.  Iteration bounds (`range(x.size1())`)
+    and reports (`to_dict`, `repr`) are not widths."""
+    import ast as _ast
+
+    # parent links live in a table of this call, never on the nodes (the trees are shared with every other rule, and an attribute that
+    # points from a child to its parent turns every later deepcopy of a statement into a copy of the whole module)
+    up = {}
+    for n in _ast.walk(root):
+        for ch in _ast.iter_child_nodes(n):
+            up[id(ch)] = n
+    out = []
+    for c in _ast.walk(root):
+        is_rows = (isinstance(c, _ast.Call) and isinstance(c.func, _ast.Attribute) and c.func.attr in ("size1", "rows") and not c.args) or (
+            isinstance(c, _ast.Subscript) and isinstance(c.value, _ast.Attribute) and c.value.attr == "shape" and isinstance(c.slice, _ast.Constant) and c.slice.value == 0)
+        if not is_rows:
+            continue
+        node, width, partner, ranged = c, False, False, False
+        while up.get(id(node)) is not None and not isinstance(node, _ast.stmt):
+            p = up[id(node)]
+            if isinstance(p, _ast.BinOp) and isinstance(p.op, _ast.Mult):
+                other = p.right if p.left is node else p.left
+                if any((isinstance(x, _ast.Attribute) and x.attr in ("size2", "columns")) or (
+                        isinstance(x, _ast.Subscript) and isinstance(x.value, _ast.Attribute) and x.value.attr == "shape" and isinstance(x.slice, _ast.Constant) and x.slice.value == 1)
+                       for x in _ast.walk(other)):
+                    partner = True
+            if isinstance(p, _ast.BinOp) and isinstance(p.op, _ast.Add):
+                width = True
+            if isinstance(p, _ast.AugAssign) and isinstance(p.op, _ast.Add):
+                width = True
+            if isinstance(p, _ast.Call) and node is not p.func:
+                nm = p.func.id if isinstance(p.func, _ast.Name) else p.func.attr if isinstance(p.func, _ast.Attribute) else ""
+                if nm == "range":
+                    ranged = True
+                if nm in ("sum", "slice", "sym", "zeros", "ones", "cumsum"):
+                    width = True
+            node = p
+        if width and not partner and not ranged:
+            out.append((getattr(c, "lineno", 0), _ast.unparse(c)))
+    return out
+
+
+def _selftest_row_counts():
+    import ast as _ast
+    pos = _ast.parse("def f(v, row):\n    rows = slice(row, row + v.symbol.size1())\n    n = sum([s.size1() for s in xs])\n")
+    neg = _ast.parse("def f(v):\n    n = sum(s.size1() * s.size2() for s in xs)\n    for i in range(v.size1()):\n        pass\n    d = (v.size1(), v.size2())\n")
+    return len(row_counts_used_as_widths(pos)) == 2 and not row_counts_used_as_widths(neg)
